@@ -1,8 +1,154 @@
 (* Properties_C15.v -- the property theorems, nothing else. *)
 From Coq Require Import List Arith Bool.
 Import ListNotations.
-From Heph Require Import Driver.Model Driver.Proofs.
+From Heph Require Import Driver.Model Driver.Spec Driver.SpecOrder Driver.Proofs Driver.ProofsLoops Driver.ProofsOracle Driver.ProofsSession.
 
-Theorem dead_session_is_not_cleaned : forall s, alive s = false -> finish s = s.
-Proof. exact finish_dead. Qed.
-Print Assumptions dead_session_is_not_cleaned.
+Theorem check_oracle_total : forall v k oracles f,
+  WfBatch f k oracles -> exists out f', check_oracle v k oracles f = ROk out f'.
+Proof. exact check_oracle_total_proof. Qed.
+Print Assumptions check_oracle_total.
+
+Theorem report_iff : forall v k oracles f out f',
+  WfBatch f k oracles -> check_oracle v k oracles f = ROk out f' ->
+  forall p, In p (map fst out) <-> exists pr, In (p, pr) oracles /\ is_fault v pr.
+Proof. exact report_iff_proof. Qed.
+Print Assumptions report_iff.
+
+Theorem report_nodup : forall v k oracles f out f',
+  WfBatch f k oracles -> check_oracle v k oracles f = ROk out f' -> NoDup (map fst out).
+Proof. exact report_nodup_proof. Qed.
+Print Assumptions report_nodup.
+
+Theorem saved_iff : forall v k oracles f out f',
+  WfBatch f k oracles -> check_oracle v k oracles f = ROk out f' ->
+  forall p, has f' (DSaved p) = true <->
+            (has f (DSaved p) = true \/ exists pr, In (p, pr) oracles /\ compiler_fault v pr).
+Proof. exact saved_iff_proof. Qed.
+Print Assumptions saved_iff.
+
+Theorem batch_cleanup : forall v k oracles f out f',
+  WfBatch f k oracles -> check_oracle v k oracles f = ROk out f' ->
+  has f' (DBatch k) = false /\
+  (forall k', k' <> k -> has f' (DBatch k') = has f (DBatch k')) /\
+  (forall p, has f' (DTmp p) = true -> has f (DTmp p) = true) /\
+  (forall failed, v = VDiag failed -> forall p pr, In (p, pr) oracles -> p_failed pr = false ->
+                  has f' (DTmp p) = false).
+Proof. exact batch_cleanup_proof. Qed.
+Print Assumptions batch_cleanup.
+
+(* report_messages is FALSE as stated: see report_messages_refuted / report_messages_partial *)
+Theorem report_messages_refuted :
+  exists v k oracles f out f',
+    WfBatch f k oracles /\ check_oracle v k oracles f = ROk out f' /\
+    ~ (forall p e, In (p, e) out ->
+        exists pr, In (p, pr) oracles /\
+          (p_failed pr = true -> e = p_error pr) /\
+          (p_failed pr = false ->
+             match v with
+             | VCrash c => e = Some (MStr c)
+             | VDiag failed =>
+                 (accepted_illtyped failed pr -> exists m, e = Some (MShould m)) /\
+                 (~ accepted_illtyped failed pr ->
+                    exists file msgs, In (file, true) (p_programs pr) /\
+                                      failed_lookup failed file = Some msgs /\ e = Some (MJoin msgs))
+             end)).
+Proof. exact report_messages_refuted_proof. Qed.
+Print Assumptions report_messages_refuted.
+
+Theorem report_messages_partial : forall v k oracles f out f',
+  WfBatch f k oracles -> check_oracle v k oracles f = ROk out f' ->
+  forall p e, In (p, e) out ->
+    exists pr, In (p, pr) oracles /\
+      (p_failed pr = true -> e = p_error pr) /\
+      (p_failed pr = false ->
+         match v with
+         | VCrash c => e = Some (MStr c)
+         | VDiag failed =>
+             (exists pre file o post,
+                 p_programs pr = pre ++ (file, o) :: post /\
+                 (forall file' o', In (file', o') post ->
+                    ~ ((o' = true /\ has_error failed file') \/ (o' = false /\ ~ has_error failed file'))) /\
+                 (o = true -> exists msgs, failed_lookup failed file = Some msgs /\ e = Some (MJoin msgs)) /\
+                 (o = false -> ~ has_error failed file /\ exists m, e = Some (MShould m))) /\
+             (accepted_illtyped failed pr -> ~ rejected_welltyped failed pr ->
+                exists m, e = Some (MShould m)) /\
+             (~ accepted_illtyped failed pr ->
+                exists file msgs, In (file, true) (p_programs pr) /\
+                                  failed_lookup failed file = Some msgs /\ e = Some (MJoin msgs))
+         end).
+Proof. exact report_messages_partial_proof. Qed.
+Print Assumptions report_messages_partial.
+
+Theorem report_messages_ordered : forall v k oracles f out f',
+  WfBatch f k oracles ->
+  (forall p pr, In (p, pr) oracles -> ordered_programs pr) ->
+  check_oracle v k oracles f = ROk out f' ->
+  forall p e, In (p, e) out ->
+    exists pr, In (p, pr) oracles /\
+      (p_failed pr = true -> e = p_error pr) /\
+      (p_failed pr = false ->
+         match v with
+         | VCrash c => e = Some (MStr c)
+         | VDiag failed =>
+             (accepted_illtyped failed pr -> exists m, e = Some (MShould m)) /\
+             (~ accepted_illtyped failed pr ->
+                exists file msgs, In (file, true) (p_programs pr) /\
+                                  failed_lookup failed file = Some msgs /\ e = Some (MJoin msgs))
+         end).
+Proof. exact report_messages_ordered_proof. Qed.
+Print Assumptions report_messages_ordered.
+
+Theorem no_leftovers : forall m f0 bs,
+  alive (run_session m f0 bs) = true ->
+  forall d, In d (s_fs (run_session m f0 bs)) -> is_tmp d = false.
+Proof. exact no_leftovers_proof. Qed.
+Print Assumptions no_leftovers.
+
+Theorem update_stats_commutes : forall st r1 n1 r2 n2,
+  let a := update_stats (update_stats st r1 n1) r2 n2 in
+  let b := update_stats (update_stats st r2 n2) r1 n1 in
+  passed a = passed b /\ failed_n a = failed_n b /\
+  (forall p, In p (map fst (faults a)) <-> In p (map fst (faults b))).
+Proof. exact update_stats_commutes_proof. Qed.
+Print Assumptions update_stats_commutes.
+
+Theorem worker_swallows : forall s b e f,
+  alive s = true ->
+  check_oracle (b_verdict b) (b_dir b) (b_oracles b) (gen_phase (s_fs s) b) = RExc e f ->
+  (alive (session_step Sequential s b) = false) /\
+  (let s' := session_step Workers s b in
+   alive s' = true /\
+   passed (s_stats s') = passed (s_stats s) + length (b_oracles b) /\
+   failed_n (s_stats s') = failed_n (s_stats s)).
+Proof. exact worker_swallows_proof. Qed.
+Print Assumptions worker_swallows.
+
+Theorem counters : forall m f0 bs,
+  WfSession f0 bs ->
+  let s := run_session m f0 bs in
+  alive s = true /\
+  passed (s_stats s) + failed_n (s_stats s) = session_programs bs /\
+  (forall p, In p (map fst (faults (s_stats s))) <->
+             exists b pr, In b bs /\ In (p, pr) (b_oracles b) /\ is_fault (b_verdict b) pr).
+Proof. exact counters_proof. Qed.
+Print Assumptions counters.
+
+(* non-vacuity of counters / failed_counter: a well-formed two-batch session and its result *)
+Example counters_example :
+  WfSession [] [ex_b1; ex_b2] /\
+  NoDup (session_pids [ex_b1; ex_b2]) /\
+  run_session Sequential [] [ex_b1; ex_b2] =
+  {| alive := true;
+     s_stats := {| passed := 1; failed_n := 3;
+                   faults := [(1, Some (MStr 99)); (2, Some (MStr 9));
+                              (3, Some (MShould (MJoin [5; 6])))] |};
+     s_fs := [DSaved 1; DSaved 3] |}.
+Proof. exact counters_example_proof. Qed.
+Print Assumptions counters_example.
+
+Theorem failed_counter : forall m f0 bs,
+  WfSession f0 bs -> NoDup (session_pids bs) ->
+  let s := run_session m f0 bs in
+  failed_n (s_stats s) = length (faults (s_stats s)).
+Proof. exact failed_counter_proof. Qed.
+Print Assumptions failed_counter.
